@@ -6,11 +6,14 @@ from tokutil import *  # noqa
 from protocol import from_real
 
 ID = "C03"
-LEAN_MODULE = None
+LEAN_MODULE = ["SCoda.Props.C01"]
 CLAUSES = [
-    ("chunked tokenisation with a threaded state dictionary detokenises to the same notes, onsets and durations as the single call", None),
-    ("and to the same bar grid", None),
-    ("for every way of grouping consecutive bars into calls, across signature changes and empty bars", None),
+    ("two consecutive calls threading the state emit (notes and bar ends) exactly what one call on the joined events emits; "
+     "by induction every grouping of consecutive whole-bar chunks does",
+     ["SCoda.C01.chunked", "SCoda.C01.specLog_append_partial", "SCoda.C01.sim_partial"]),
+    ("the simulation holds from an arbitrary related start state (the carried state dictionary), across signature changes and empty chunks",
+     ["SCoda.C01.sim_partial", "SCoda.C01.applyRest_sync"]),
+    ("the n-chunk statement as one theorem (induction over the chunk list) and the glue Bar.to_sequence ∘ sequences_split_bars yields whole-bar chunks", None),
 ]
 RULE = ("valid pieces (1-3 tracks, 2-6 bars, signature changes, empty bars) split into bars by sequences_split_bars, regrouped "
         "by random partitions (thorough: all 2^(bars-1) partitions up to 6 bars) x sampled configurations; "
